@@ -1,14 +1,26 @@
 (* Correspondence evaluator for C13: folds the model over the chain of operations the harness
    ran through the real action.Install / Upgrade / Rollback and compares, for every stored
    revision, Release.Config and the values the probe template saw, plus which operations
-   failed. *)
+   failed.
+
+   A chain may hand ONE values map object to several operations and may talk about several
+   releases: the harness prints, for every operation, the ORIGINAL content of the map it was
+   given (the model is value-semantic: it is the specification of what must be recorded whatever
+   objects the caller shares), and one (operations, results, revisions) triple per release
+   ([mkMulti]); the model runs every release's operations on that release's own history.  An
+   implementation that writes into the caller's map records, for a later operation given the
+   same object, something else than the model computes from the original content. *)
 From Coq Require Import List String Bool Arith ZArith.
 From Helm Require Import Common.Strs Values.Tree Values.Coalesce Values.Reuse.
 Import ListNotations.
 
 Record obs_rev := mkObs { oconfig : vmap; orendered : vmap; ostatus : rstat }.
 
-Record case := mkCase { cops : list op; coks : list bool; crevs : list obs_rev }.
+Record rel_case := mkRel { cops : list op; coks : list bool; crevs : list obs_rev }.
+
+Inductive case :=
+| mkCase (ops : list op) (oks : list bool) (revs : list obs_rev)      (* one release *)
+| mkMulti (rels : list rel_case).                                     (* several releases *)
 
 Fixpoint bools_eqb (a b : list bool) : bool :=
   match a, b with
@@ -28,9 +40,15 @@ Fixpoint revs_agree (m : list revision) (o : list obs_rev) : bool :=
   | _, _ => false
   end.
 
-Definition case_ok (c : case) : bool :=
+Definition rel_ok (c : rel_case) : bool :=
   let '(h, oks) := run_chain [] (cops c) in
   bools_eqb oks (coks c) && revs_agree h (crevs c).
+
+Definition case_ok (c : case) : bool :=
+  match c with
+  | mkCase ops oks revs => rel_ok (mkRel ops oks revs)
+  | mkMulti rels => forallb rel_ok rels
+  end.
 
 Fixpoint mismatches_from (i : nat) (cs : list case) : list nat :=
   match cs with
